@@ -13,7 +13,7 @@ import (
 
 func runC05(rc *sim.RunCtx) {
 	h, err := NewHist(rc, HistOpts{Profiles: []string{"core", "core", "presence"}, MinTx: 1, MaxTx: 6,
-		DevKinds: []string{"direct", "direct", "gnmi-json", "gnmi-json_ietf"},
+		DevKinds: []string{"direct", "direct", "gnmi-json", "gnmi-json_ietf", "netconf", "netconf-running"},
 		Oracles:  map[string]bool{"C01": true, "C02": true}})
 	if err != nil {
 		rc.HarnessErr("world: %v", err)
